@@ -183,3 +183,10 @@ def replay(ctx, data):
             ctx.violation("replayed op sequence still disagrees", data)
     else:
         tracelib.replay(ctx, data)
+
+
+MANIFEST = dict(
+    technique='Lean 4 theorems on models of CSelectedOutput and of the punch routing; op-sequence and PHRQ_io event-trace correspondence with the real code',
+    text="Theorems (Properties/C05.lean, Properties/Route.lean): table invariant for every op sequence, Get contract incl. out-of-range, late-column padding, last-write-wins, file=string for every event trace, disabled sink empty, tables switch-independent, getline line model. Tie: random op sequences on the real CSelectedOutput and recorded PHRQ_io event traces of real runs replayed through the model; direct oracle on the object's own views.",
+    note='Trusted: Lean kernel, harness/ph_selout.cpp, harness/ph_trace.cpp (event recording through virtual PHRQ_io methods), tools/tracelib.py. Rendering of values (printf formats) is a parameter of the model, re-rendered by vsnprintf in the harness. Known findings: switch of current user number; SELECTED_OUTPUT redefinition within a call.',
+)
